@@ -12,7 +12,7 @@ int main(int argc, char **argv)
                 }
                 if (g_fams.empty()) { fprintf(stderr, "HARNESS-ERROR: no mh family available\n"); exit(3); }
         };
-        P.gen = [](pbt::Ctx &ctx) { return mh::gen_case(g_fams[pbt::rng<size_t>(0, g_fams.size() - 1)], (uint64_t) ctx.optnum("bigmax", 300000)); };
+        P.gen = [](pbt::Ctx &ctx) { return mh::gen_case(g_fams[pbt::rng<size_t>(0, g_fams.size() - 1)], (uint64_t) ctx.optnum("bigmax", 300000), ctx.optnum("giant_ppm", 0)); };
         P.to_json = [](const mh::Case &c) { return mh::to_json(c); };
         P.from_json = [](const J &j) { return mh::from_json(j); };
         P.run = [](const mh::Case &c, pbt::Ctx &ctx) {
@@ -23,6 +23,7 @@ int main(int argc, char **argv)
                 mh::Stats st;
                 bool ok = mh::execute(c, *f, ctx, st);
                 ctx.label("fam=" + c.fam);
+                if (c.giant) ctx.label("giant-stream(~2^32 bytes)");
                 ctx.label(st.total == 0 ? "total=0" : st.total < 1024 ? "total<1024" : st.total % 1024 == 0 ? "total=k*1024" : "total>1024");
                 ctx.label("updates=" + std::to_string(c.pieces.size()));
                 ctx.nontrivial = st.carry_cross;
